@@ -41,6 +41,27 @@ def generate(binp, profile, n, steps, seed, tag, workers=16, suite="world", extr
     return hs, errs
 
 
+def fault_flows(binp, onlys, thorough, tag, variants=None):
+    """the fault enumeration (harness suite 'faults') restricted to the flows whose names start with one of `onlys`:
+    every backend call of the target request failed in turn (thorough: also pairs)"""
+    outs, errs = [], []
+    for only in onlys:
+        path = os.path.join(vlib.CACHE, "faults_%s.jsonl" % tag)
+        args = ["faults", "-seed", str(vlib.seed()), "-only", only, "-out", path]
+        if thorough:
+            args.append("-pairs")
+        if variants:
+            args += ["-variants", variants]
+        rc, log = vlib.run_harness(args, binp=binp, timeout=3000)
+        if rc == 0 and os.path.exists(path):
+            outs.extend(vlib.read_jsonl(path))
+        else:
+            errs.append(log[-1500:])
+        if os.path.exists(path):
+            os.remove(path)
+    return outs, errs
+
+
 def replay_scripts(binp, histories, tag, suite="world"):
     pin = os.path.join(vlib.CACHE, "%s_%s_in.jsonl" % (suite, tag))
     pout = os.path.join(vlib.CACHE, "%s_%s_out.jsonl" % (suite, tag))
